@@ -10,7 +10,16 @@ Ltac split_orb :=
   repeat match goal with
          | H : _ || _ = false |- _ => apply orb_false_iff in H; destruct H
          end.
-Ltac bsimpl := cbn [build enter keeps_insub mapped node_builder pm insub injoin infmt].
+Ltac bsimpl := cbn [C03_expr.build enter keeps_insub mapped node_builder pm insub injoin infmt].
+
+Section Names.
+Variable fx : fixes.
+Variable env : nenv.
+Local Notation build := (C03_expr.build fx env).
+Local Notation iterate := (C03_expr.iterate fx).
+Local Notation yb := (C03_iter.yb fx).
+Local Notation yob := (C03_iter.yob fx).
+Local Notation scan := (C03_spec.scan fx).
 
 (* ---------- totality ---------- *)
 Definition TotalP (e : pyexpr) : Prop :=
@@ -69,7 +78,7 @@ Ltac tot_step sc :=
 Ltac tstart :=
   let sc := fresh "sc" in let m := fresh "m" in let Hm := fresh "Hm" in
   split; [|try exact I]; intros sc [m xs xj xf] Hm Hwf Hs; simpl in Hm; subst m;
-  cbn in Hwf; split_andb; cbn [scan] in Hs; split_orb; bsimpl;
+  cbn in Hwf; split_andb; cbn [C03_spec.scan] in Hs; split_orb; bsimpl;
   rewrite ?binop_table, ?boolop_table, ?unop_table, ?cmpops_table;
   repeat match goal with H : TotalP' _ |- _ => destruct H as [H _] end;
   repeat tot_step sc; try (eexists; reflexivity).
@@ -87,7 +96,7 @@ Proof.
     { apply forallb_Forall in Hwf. apply existsb_false_Forall in Hs. revert Hwf Hs.
       induction H as [|x l [_ Hx] _ IH]; intros Hwf Hs; [exists []; reflexivity|].
       inversion Hwf; subst. inversion Hs; subst. destruct (IH H2 H4) as [its Bits]. simpl. rewrite Bits.
-      destruct x; try (cbn in H1; discriminate H1). cbn in H1. split_andb. cbn [scan] in H3. split_orb.
+      destruct x; try (cbn in H1; discriminate H1). cbn in H1. split_andb. cbn [C03_spec.scan] in H3. split_orb.
       destruct Hx as [Hk Hv]. destruct (Hv sc (mkCtx NoParse false xj xf) eq_refl ltac:(assumption) ltac:(assumption)) as [gv Bv].
       rewrite Bv. destruct k as [k|]; [|eexists; reflexivity]. simpl in Hk.
       destruct (Hk sc (mkCtx NoParse false xj xf) eq_refl ltac:(assumption) ltac:(assumption)) as [gk Bk]. rewrite Bk. eexists; reflexivity. }
@@ -98,11 +107,17 @@ Proof.
     destruct (total_params PO po ltac:(assumption)) as [a Ba]. destruct (total_params PK pk ltac:(assumption)) as [b Bb].
     destruct (total_params KO ko ltac:(assumption)) as [d Bd]. rewrite Ba, Bb, Bd. eexists; reflexivity.
   - (* PParam *) split; [intros sc c Hc Hwf; discriminate Hwf|]. destruct d; simpl in *; [destruct H; assumption|exact I].
+  - (* PFormattedValue *) destruct H as [Hv _].
+    split; [|exact I]. intros sc [m xs xj xf] Hm Hwf Hs. simpl in Hm. subst m. cbn in Hwf. split_andb. cbn [C03_spec.scan] in Hs. split_orb.
+    bsimpl. destruct (Hv sc (mkCtx NoParse false xj true) eq_refl ltac:(assumption) ltac:(assumption)) as [gv Bv]. rewrite Bv.
+    destruct (fx_fconv fx); [|eexists; reflexivity].
+    destruct (total_opt spec sc H0 ltac:(assumption) ltac:(assumption) (mkCtx NoParse false xj false) eq_refl) as [go Bo]. rewrite Bo.
+    eexists; reflexivity.
   - (* PAwait *) split; [|exact I]. intros sc c Hc Hwf Hs. discriminate Hs.
 Qed.
 
 Theorem build_total (e : pyexpr) (c : bctx) :
-  pm c = NoParse -> wf e = true -> has_await e = false -> exists g, build c e = Some g.
+  pm c = NoParse -> wf e = true -> has_await fx e = false -> exists g, build c e = Some g.
 Proof. intros Hc Hw Hs. exact (proj1 (build_total_all e) false c Hc Hw Hs). Qed.
 
 (* ---------- names ---------- *)
@@ -113,9 +128,11 @@ Lemma inames_app a b : item_names (a ++ b) = item_names a ++ item_names b.
 Proof. apply flat_map_app. Qed.
 Lemma inames_str s l : item_names (IStr s :: l) = item_names l.
 Proof. reflexivity. Qed.
-Lemma inames_yb c : item_names (yb true c) = names c.
-Proof. rewrite yb_true. reflexivity. Qed.
-Lemma inames_yob o : item_names (yob true o) = onames o.
+Lemma inames_wrap p l : item_names (wrap p l) = item_names l.
+Proof. destruct p; [|reflexivity]. unfold wrap. rewrite inames_str, inames_app. cbn [item_names flat_map]. apply app_nil_r. Qed.
+Lemma inames_yb req c : item_names (yb true req c) = names c.
+Proof. rewrite yb_true, inames_wrap. reflexivity. Qed.
+Lemma inames_yob req o : item_names (yob true req o) = onames o.
 Proof. destruct o; [apply inames_yb|reflexivity]. Qed.
 Lemma inames_ijoin s l : item_names (ijoin [IStr s] l) = flat_map item_names l.
 Proof.
@@ -125,7 +142,7 @@ Proof.
 Qed.
 Lemma flat_map_map {A B C} (f : A -> B) (g : B -> list C) l : flat_map g (map f l) = flat_map (fun x => g (f x)) l.
 Proof. induction l as [|x l IH]; simpl; [reflexivity|]. rewrite IH. reflexivity. Qed.
-Lemma inames_map_yb gs : flat_map item_names (map (yb true) gs) = flat_map names gs.
+Lemma inames_map_yb req gs : flat_map item_names (map (yb true req) gs) = flat_map names gs.
 Proof. rewrite flat_map_map. apply flat_map_ext. intros; apply inames_yb. Qed.
 Lemma inames_cmp_zip ops ls : flat_map item_names (cmp_zip ops ls) = flat_map item_names ls.
 Proof.
@@ -145,9 +162,45 @@ Proof.
     rewrite ?inames_app; destruct (is_nil ps); cbn [item_names flat_map app]; rewrite ?IH, ?app_nil_r; reflexivity.
 Qed.
 
+Lemma inames_lam_params2 ps a c :
+  item_names (lam_params2 ps a c)
+  = flat_map (fun p => match snd p with Some dd => if is_variadic (snd (fst p)) then [] else item_names dd | None => [] end) ps.
+Proof.
+  revert a c. induction ps as [|[[n k] d] ps IH]; intros a c; [destruct a; reflexivity|].
+  cbn [lam_params2 flat_map fst snd].
+  destruct k, a, c, d as [dd|]; cbn [is_po is_variadic negb andb]; rewrite ?inames_app; cbn [item_names flat_map app];
+    rewrite ?inames_app; destruct (is_nil ps); cbn [item_names flat_map app]; rewrite ?IH, ?app_nil_r; reflexivity.
+Qed.
+Lemma inames_lam_items ps :
+  item_names (lam_items fx ps)
+  = flat_map (fun p => match snd p with Some dd => if is_variadic (snd (fst p)) then [] else item_names dd | None => [] end) ps.
+Proof. unfold lam_items. destruct (fx_lambda fx); [apply inames_lam_params2|apply inames_lam_params]. Qed.
+Lemma inames_attr_parts vs : flat_map item_names (attr_parts fx true vs) = flat_map names vs.
+Proof.
+  unfold attr_parts, attr_parts_gen. destruct vs as [|v rest]; [reflexivity|]. destruct v; try apply inames_map_yb.
+  cbn [flat_map]. rewrite inames_map_yb. destruct (fx_intattr fx && is_decimal s); reflexivity.
+Qed.
+Lemma inames_call_args args : item_names (call_args fx true args) = flat_map names args.
+Proof.
+  unfold call_args, call_args_gen.
+  assert (Hgen : item_names ([IStr "("] ++ ijoin [IStr ", "] (map (yb true P_TEST) args) ++ [IStr ")"]) = flat_map names args).
+  { rewrite !inames_app, inames_ijoin, inames_map_yb. cbn [item_names flat_map app]. apply app_nil_r. }
+  destruct args as [|a r]; [exact Hgen|]. destruct a; try exact Hgen. destruct r; [|exact Hgen].
+  destruct (fx_genexp fx); [rewrite inames_yb; cbn [flat_map]; rewrite app_nil_r; reflexivity|].
+  rewrite !inames_app, inames_yb. cbn [item_names flat_map app]. rewrite !app_nil_r. reflexivity.
+Qed.
+Lemma inames_glue v : item_names (glue fx v) = [].
+Proof. unfold glue. destruct (_ && _); reflexivity. Qed.
+Definition spec_names (spec : option gexpr) : list string := match spec with Some o => names o | None => [] end.
+
 Ltac nnorm :=
-  unfold names at 1; autorewrite with iter_eq; cbn [app];
-  repeat (rewrite ?inames_app, ?inames_str, ?inames_ijoin, ?inames_map_yb, ?inames_yb, ?inames_yob, ?inames_cmp_zip, ?app_nil_r);
+  unfold names at 1;
+  rewrite ?it_Str, ?it_Name, ?it_Attribute, ?it_BinOp, ?it_BoolOp, ?it_Call, ?it_Compare, ?it_Comprehension,
+    ?it_Dict, ?it_DictComp, ?it_Formatted, ?it_GeneratorExp, ?it_IfExp, ?it_JoinedStr, ?it_Keyword, ?it_VarPositional,
+    ?it_VarKeyword, ?it_Lambda, ?it_List, ?it_ListComp, ?it_NamedExpr, ?it_Set, ?it_SetComp, ?it_Slice, ?it_Subscript,
+    ?it_Tuple, ?it_UnaryOp, ?it_Yield, ?it_YieldFrom; cbn [app];
+  repeat (rewrite ?inames_app, ?inames_str, ?inames_wrap, ?inames_ijoin, ?inames_map_yb, ?inames_yb, ?inames_yob, ?inames_cmp_zip,
+                  ?inames_attr_parts, ?inames_call_args, ?inames_glue, ?app_nil_r);
   cbn [item_names flat_map app]; rewrite ?app_nil_r.
 
 Lemma names_Str s : names (GStr s) = []. Proof. reflexivity. Qed.
@@ -162,11 +215,23 @@ Lemma names_Comprehension t it conds a :
 Proof. destruct a, conds; nnorm; cbn [is_nil]; nnorm; reflexivity. Qed.
 Lemma names_Dict items : names (GDict items) = flat_map (fun kv => onames (fst kv) ++ names (snd kv)) items.
 Proof.
-  nnorm. rewrite flat_map_map. apply flat_map_ext. intros [[k|] v]; unfold dict_item; simpl fst; simpl snd;
-    rewrite !inames_app, ?inames_yb; cbn [item_names flat_map app onames]; rewrite ?app_nil_r; reflexivity.
+  nnorm. rewrite flat_map_map. apply flat_map_ext. intros [[k|] v]; unfold C03_iter.dict_item; cbn [fst snd];
+    repeat (rewrite ?inames_app, ?inames_str, ?inames_yb); cbn [item_names flat_map app onames]; rewrite ?app_nil_r; reflexivity.
 Qed.
 Lemma names_DictComp k v gens : names (GDictComp k v gens) = names k ++ names v ++ flat_map names gens. Proof. nnorm. reflexivity. Qed.
-Lemma names_Formatted v : names (GFormatted v) = names v. Proof. nnorm. reflexivity. Qed.
+Lemma names_spec_items spec : item_names (spec_items fx true spec) = spec_names spec.
+Proof.
+  unfold spec_items, spec_items_gen, spec_names. destruct spec as [o|]; [|reflexivity].
+  assert (Ho : item_names (IStr ":" :: yb true P_NONE o) = names o) by (rewrite inames_str; apply inames_yb).
+  destruct o; try exact Ho.
+  rewrite inames_str, inames_ijoin, inames_map_yb. unfold names. rewrite it_JoinedStr. cbn [app].
+  rewrite inames_str, inames_app, inames_ijoin, inames_map_yb. cbn [item_names flat_map]. rewrite app_nil_r. reflexivity.
+Qed.
+Lemma names_Formatted v conv spec : names (GFormatted v conv spec) = names v ++ spec_names spec.
+Proof.
+  unfold names. rewrite it_Formatted. cbn [app]. rewrite inames_str, !inames_app, inames_glue, inames_yb, names_spec_items.
+  destruct (conv =? -1)%Z; cbn [item_names flat_map app]; rewrite ?app_nil_r; reflexivity.
+Qed.
 Lemma names_GeneratorExp e gens : names (GGeneratorExp e gens) = names e ++ flat_map names gens. Proof. nnorm. reflexivity. Qed.
 Lemma names_IfExp b t o : names (GIfExp b t o) = names b ++ names t ++ names o. Proof. nnorm. reflexivity. Qed.
 Lemma names_JoinedStr vs : names (GJoinedStr vs) = flat_map names vs. Proof. nnorm. reflexivity. Qed.
@@ -180,7 +245,8 @@ Lemma names_SetComp e gens : names (GSetComp e gens) = names e ++ flat_map names
 Lemma names_NamedExpr t v : names (GNamedExpr t v) = names t ++ names v. Proof. nnorm. reflexivity. Qed.
 Lemma names_Subscript l s : names (GSubscript l s) = names l ++ names s. Proof. nnorm. reflexivity. Qed.
 Lemma names_Tuple es i : names (GTuple es i) = flat_map names es.
-Proof. destruct i, es as [|? [|? ?]]; nnorm; reflexivity. Qed.
+Proof. unfold names. rewrite it_Tuple. destruct (tuple_par fx es i), es as [|? [|? ?]]; cbn [app];
+  repeat (rewrite ?inames_app, ?inames_str, ?inames_ijoin, ?inames_map_yb, ?app_nil_r); cbn [item_names flat_map app]; rewrite ?app_nil_r; reflexivity. Qed.
 Lemma names_UnaryOp op v : names (GUnaryOp op v) = names v. Proof. nnorm. reflexivity. Qed.
 Lemma names_Yield v : names (GYield v) = onames v. Proof. destruct v; nnorm; reflexivity. Qed.
 Lemma names_YieldFrom v : names (GYieldFrom v) = names v. Proof. nnorm. reflexivity. Qed.
@@ -190,12 +256,12 @@ Lemma names_Lambda params body :
   names (GLambda params body) =
   flat_map (fun p : string * pkind * option gexpr => if is_variadic (snd (fst p)) then [] else onames (snd p)) params ++ names body.
 Proof.
-  destruct (is_nil params) eqn:E; nnorm; rewrite E; nnorm; rewrite inames_lam_params, flat_map_map; f_equal;
-    apply flat_map_ext; intros [[n k] [d|]]; unfold conv_param; cbn [fst snd onames]; rewrite ?inames_yb; destruct (is_variadic k); reflexivity.
+  destruct (is_nil params) eqn:E; nnorm; rewrite E; nnorm; rewrite inames_lam_items, flat_map_map; f_equal;
+    apply flat_map_ext; intros [[n k] [d|]]; unfold C03_iter.conv_param; cbn [fst snd onames]; rewrite ?inames_yb; destruct (is_variadic k); reflexivity.
 Qed.
 
 Create HintDb names_eq.
-#[export] Hint Rewrite names_Str names_Name names_Attribute names_BinOp names_BoolOp names_Call names_Compare names_Comprehension
+#[local] Hint Rewrite names_Str names_Name names_Attribute names_BinOp names_BoolOp names_Call names_Compare names_Comprehension
   names_Dict names_DictComp names_Formatted names_GeneratorExp names_IfExp names_JoinedStr names_Keyword names_VarPositional
   names_VarKeyword names_List names_Set names_ListComp names_SetComp names_NamedExpr names_Subscript names_Tuple names_UnaryOp
   names_Yield names_YieldFrom names_Slice names_Lambda : names_eq.
@@ -253,7 +319,7 @@ Ltac nm_step :=
 Ltac nstart :=
   let m := fresh "m" in let Hm := fresh "Hm" in
   split; [|try exact I]; intros [m xs xj xf] g Hm Hwf Hs Hb; simpl in Hm; subst m;
-  cbn in Hwf; split_andb; cbn [scan] in Hs; split_orb; cbn [build enter keeps_insub mapped node_builder pm insub injoin infmt] in Hb;
+  cbn in Hwf; split_andb; cbn [C03_spec.scan] in Hs; split_orb; cbn [C03_expr.build enter keeps_insub mapped node_builder pm insub injoin infmt] in Hb;
   rewrite ?binop_table, ?boolop_table, ?unop_table, ?cmpops_table in Hb;
   repeat match goal with H : NamesP' _ |- _ => destruct H as [H _] end;
   binv Hb; autorewrite with names_eq; cbn [src_names]; rewrite ?flat_map_app; repeat nm_step; try reflexivity.
@@ -273,7 +339,7 @@ Proof.
   - inversion Hb. reflexivity.
   - inversion Hw; subst. inversion Hs; subst. simpl in Hb.
     destruct x as [| | | | | | | | | | | | | | | | | | | | |pn d| | | | | | | | | | | |]; try discriminate Hb.
-    cbn in H1. cbn [scan] in H3. simpl in Hx.
+    cbn in H1. cbn [C03_spec.scan] in H3. simpl in Hx.
     destruct (mapo _ l) eqn:El; [|discriminate Hb]. inversion Hb; subst. cbn [flat_map fst snd src_names].
     rewrite Hk, (IH H2 H4 l0 eq_refl). f_equal.
     destruct d as [dd|]; [|reflexivity]. simpl in Hx.
@@ -291,7 +357,7 @@ Proof.
     induction H as [|x items [_ Hx] _ IH]; intros l E Hwf Hs.
     + inversion E. reflexivity.
     + inversion Hwf; subst. inversion Hs; subst. simpl in E.
-      destruct x; try discriminate E. cbn in H1. split_andb. cbn [scan] in H3. split_orb. destruct Hx as [Hk Hv].
+      destruct x; try discriminate E. cbn in H1. split_andb. cbn [C03_spec.scan] in H3. split_orb. destruct Hx as [Hk Hv].
       destruct (mapo _ items) eqn:El in E.
       2:{ repeat match type of E with match ?y with _ => _ end = _ => destruct y end; discriminate E. }
       cbn [flat_map src_names]. rewrite <- (IH l0 El H2 H4).
@@ -310,9 +376,20 @@ Proof.
     rewrite (params_names KO ko _ eq_refl H1 ltac:(assumption) ltac:(assumption) E1).
     destruct vp, vk; cbn [flat_map fst snd is_variadic app]; rewrite ?app_nil_r, <- ?app_assoc; reflexivity.
   - (* PParam *) split; [intros c g Hc Hwf; discriminate Hwf|]. destruct d; simpl in *; [destruct H; assumption|exact I].
-  - (* PFormattedValue *) nstart. destruct spec; [discriminate|]. rewrite app_nil_r. reflexivity.
+  - (* PFormattedValue *) destruct H as [Hv _].
+    split; [|exact I]. intros [m xs xj xf] g Hm Hwf Hs Hb. simpl in Hm. subst m. cbn in Hwf. split_andb. cbn [C03_spec.scan] in Hs. split_orb.
+    cbn [C03_expr.build enter keeps_insub mapped node_builder pm insub injoin infmt] in Hb.
+    destruct (build (mkCtx NoParse false xj true) v) as [gv|] eqn:Ev; [|discriminate Hb].
+    cbn [src_names]. rewrite <- (Hv (mkCtx NoParse false xj true) gv eq_refl ltac:(assumption) ltac:(assumption) Ev).
+    destruct (fx_fconv fx).
+    + destruct (optb (build (mkCtx NoParse false xj false)) spec) as [go|] eqn:Eo; [|discriminate Hb]. inversion Hb; subst.
+      rewrite names_Formatted. f_equal.
+      exact (names_opt spec H0 ltac:(assumption) ltac:(assumption) (mkCtx NoParse false xj false) go eq_refl Eo).
+    + inversion Hb; subst. rewrite names_Formatted. cbn [spec_names]. destruct spec; [discriminate|]. reflexivity.
 Qed.
 
 Theorem names_all_present (e : pyexpr) (c : bctx) (g : gexpr) :
-  pm c = NoParse -> wf e = true -> drops e = false -> build c e = Some g -> item_names (iterate true g) = src_names e.
+  pm c = NoParse -> wf e = true -> drops fx e = false -> build c e = Some g -> item_names (iterate true g) = src_names e.
 Proof. intros Hc Hw Hd Hb. exact (proj1 (names_all e) c g Hc Hw Hd Hb). Qed.
+
+End Names.
